@@ -785,165 +785,6 @@ theorem parseRadixAux_none (r : Radix) (s : Bytes) (h : ∃ c ∈ s, r.val c = n
       · subst e; rw [hv] at hcv; cases hcv
       · exact ih ⟨c, hm, hcv⟩ _
 
-theorem pyInt_bad (val : Bytes) (hne : val ≠ []) (hn : NoWs val) (hb : ∃ c ∈ val, isDigit c = false) :
-    pyInt 10 val = none := by
-  unfold pyInt
-  rw [stripWs_noWs _ hn]
-  have : radixOf 10 = decimal := by simp [radixOf]
-  rw [this]
-  cases val with
-  | nil => exact absurd rfl hne
-  | cons x xs =>
-    simp only [parseRadix?]
-    apply parseRadixAux_none
-    obtain ⟨c, hc, hd⟩ := hb
-    refine ⟨c, hc, ?_⟩
-    simp only [isDigit, Bool.and_eq_false_iff, decide_eq_false_iff_not] at hd
-    show (if 48 ≤ c ∧ c ≤ 57 then some (c - 48) else none) = none
-    have : ¬ (48 ≤ c ∧ c ≤ 57) := by omega
-    simp [this]
-
-/-- what one line of a well-formed file does to `fields` -/
-def itemStep (guarded : Bool) : Item → LineStep
-  | .kv n v => .set n v
-  | .blank _ => .skip
-  | .junk _ => .skip
-  | .badval _ _ => if guarded then .skip else .raise .valueError
-
-theorem kv_text_no_nl (name : Bytes) (hn : NoWs name) (val : Nat) : 10 ∉ name ++ sepText ++ renderDec val := by
-  simp only [List.mem_append, not_or]
-  refine ⟨⟨?_, by decide⟩, renderDec_not_mem val 10 (by decide)⟩
-  intro hm
-  have := hn 10 hm
-  simp [isWs] at this
-
-theorem item_text_no_nl (it : Item) (h : WFItem it) : 10 ∉ it.text := by
-  cases it with
-  | kv name val => exact kv_text_no_nl name h.2.2 val
-  | blank ws => exact h.2
-  | junk s => exact h.1
-  | badval name val =>
-    obtain ⟨⟨_, _, hn⟩, _, _, hv, _⟩ := h
-    simp only [Item.text, List.mem_append, not_or]
-    refine ⟨⟨?_, by decide⟩, ?_⟩
-    · intro hm; have := hn 10 hm; simp [isWs] at this
-    · intro hm; have := hv 10 hm; simp [isWs] at this
-
-/-- `ioLine` after the `strip()` -/
-def ioLineCore (c : Cfg) (l : Bytes) : LineStep :=
-  if l.isEmpty then .skip
-  else
-    match splitSeq c.ioSep l with
-    | [name, value] =>
-      match pyInt 10 value with
-      | some v => .set name v
-      | none => if c.ioIntGuarded then .skip else .raise .valueError
-    | _ => .skip
-
-theorem ioLine_core (c : Cfg) (line : Bytes) : ioLine c line = ioLineCore c (stripWs line) := rfl
-
-theorem ioLine_item (c : Cfg) (hg : c.GoodIo) (it : Item) (h : WFItem it) :
-    ioLine c it.text = itemStep c.ioIntGuarded it := by
-  rw [ioLine_core]
-  cases it with
-  | kv name val =>
-    obtain ⟨hne, hcol, hn⟩ := h
-    simp only [Item.text, itemStep]
-    rw [stripWs_ends name sepText (renderDec val) hne hn (renderDec_ne_nil val) (renderDec_noWs val)]
-    have hnonempty : (name ++ sepText ++ renderDec val).isEmpty = false := by
-      cases name with
-      | nil => exact absurd rfl hne
-      | cons x xs => rfl
-    unfold ioLineCore
-    rw [hnonempty, hg.ioSep, splitSeq_one name (renderDec val) hcol (renderDec_not_mem val 58 (by decide))]
-    simp [pyInt_dec]
-  | blank ws =>
-    simp only [Item.text, itemStep, stripWs_allWs ws h.1]
-    rfl
-  | junk s =>
-    simp only [Item.text, itemStep]
-    have hs := containsSeq_strip s h.2
-    unfold ioLineCore
-    rw [hg.ioSep]
-    cases hl : stripWs s with
-    | nil => rfl
-    | cons x xs =>
-      rw [hl] at hs
-      have := splitSeqGo_none (x :: xs) [] hs
-      simp only [List.reverse_nil, List.nil_append] at this
-      simp [splitSeq, this]
-  | badval name val =>
-    obtain ⟨⟨hne, hcol, hn⟩, hvne, hvcol, hvn, hbad⟩ := h
-    simp only [Item.text, itemStep]
-    rw [stripWs_ends name sepText val hne hn hvne hvn]
-    have hnonempty : (name ++ sepText ++ val).isEmpty = false := by
-      cases name with
-      | nil => exact absurd rfl hne
-      | cons x xs => rfl
-    unfold ioLineCore
-    rw [hnonempty, hg.ioSep, splitSeq_one name val hcol hvcol]
-    simp [pyInt_bad val hvne hvn hbad]
-
-theorem ioFields_items (c : Cfg) (hg : c.GoodIo) (hgd : c.ioIntGuarded = true) (its : List Item)
-    (h : ∀ it ∈ its, WFItem it) :
-    ∀ acc, ioFields c (its.map Item.text) acc = .ok ((kvs its).reverse ++ acc) := by
-  induction its with
-  | nil => intro acc; rfl
-  | cons it its ih =>
-    intro acc
-    have hi := ioLine_item c hg it (h it (by simp))
-    have ih' := ih (fun x hx => h x (by simp [hx]))
-    simp only [List.map_cons, ioFields, hi, hgd]
-    cases it <;> simp [itemStep, kvs, ih']
-
-theorem lookup_none_of_not_mem (l : List (Bytes × Nat)) (k : Bytes) (h : k ∉ l.map (·.1)) :
-    l.lookup k = none := by
-  induction l with
-  | nil => rfl
-  | cons a as ih =>
-    simp only [List.map_cons, List.mem_cons, not_or] at h
-    have : (k == a.1) = false := by simpa using h.1
-    simp [List.lookup, this, ih h.2]
-
-theorem lookup_reverse_nodup (l : List (Bytes × Nat)) (k : Bytes) (h : (l.map (·.1)).Nodup) :
-    l.reverse.lookup k = l.lookup k := by
-  induction l with
-  | nil => rfl
-  | cons a as ih =>
-    simp only [List.map_cons, List.nodup_cons] at h
-    rw [List.reverse_cons, List.lookup_append, ih h.2]
-    cases hk : (k == a.1) with
-    | true =>
-      have e : k = a.1 := by simpa using hk
-      have hn := lookup_none_of_not_mem as k (by rw [e]; exact h.1)
-      simp [List.lookup, hk, hn]
-    | false =>
-      simp [List.lookup, hk]
-
-theorem lookupAll_eq_pick (l : List (Bytes × Nat)) (h : (l.map (·.1)).Nodup) (ks : List Bytes) :
-    lookupAll l.reverse ks = pick l ks := by
-  induction ks with
-  | nil => rfl
-  | cons k ks ih =>
-    simp only [lookupAll, pick, lookup_reverse_nodup l k h, ih]
-    cases List.lookup k l <;> cases pick l ks <;> rfl
-
-theorem ioCounters_items (c : Cfg) (hg : c.GoodIo) (hgd : c.ioIntGuarded = true) (its : List Item)
-    (h : ∀ it ∈ its, WFItem it) (hd : DistinctKeys its) :
-    ioCounters c true (.ok (renderItems its)) = expectedIo its := by
-  unfold ioCounters ioCountersBody expectedIo
-  simp only [linesOf_renderItems its (fun it hi => item_text_no_nl it (h it hi)),
-    ioFields_items c hg hgd its h [], List.append_nil, List.isEmpty_reverse, hg.ioKeys,
-    lookupAll_eq_pick _ hd]
-  cases hk : (kvs its).isEmpty with
-  | true => rfl
-  | false =>
-    simp only [Bool.false_eq_true, if_false]
-    cases pick (kvs its) documentedKeys <;> rfl
-
-theorem kvs_filter (its : List Item) : kvs (its.filter Item.isKv) = kvs its := by
-  induction its with
-  | nil => rfl
-  | cons it its ih => cases it <;> simp [List.filter_cons, Item.isKv, kvs, ih]
+/- the item-level io lemmas (`ioLine_item` … `ioCounters_items`) live in Proofs/C14Io.lean -/
 
 end Psutil.C14
